@@ -155,3 +155,83 @@ def exact_line_bezier_count(bez_pts, l0, l1):
 
 def exact_line_line_count(a0, a1, b0, b1):
     return exact_line_bezier_count([a0, a1], b0, b1)
+
+
+# ---------------------------------------------------------------- long paths: grids of crossings
+
+# (number of strokes in the comb, number of rungs): the products bracket 256 and 4096 segment pairs
+GRID_SIZES_QUICK = [(1, 1), (3, 2), (15, 17), (16, 16), (17, 16), (8, 32), (33, 8), (1, 257), (64, 64), (63, 65), (70, 60)]
+GRID_SIZES_THOROUGH = GRID_SIZES_QUICK + [(2, 128), (128, 2), (5, 52), (31, 33), (32, 32), (100, 41), (41, 100), (128, 128), (1, 4097)]
+
+
+def grid_paths(n_comb, n_rungs, kinds, long_stroke):
+    """a comb of n_comb near-vertical strokes and n_rungs near-horizontal rungs crossing all of them
+    transversally, strictly inside both; every stroke / rung is its own sub-path (discontinuous paths).
+    long_stroke: one stroke of the comb is replaced by a long slanted one spanning ~30 columns."""
+    from mc import longpaths as LP
+    if long_stroke == 'over_zigzag':
+        # one long stroke (somewhere in the middle of a path of otherwise short, far-away segments)
+        # crossing every segment of a zigzag of short segments
+        zig = LP.zigzag(n_comb, kinds, amp=1.0, step=1.0, start=0j)
+        lo = min(s.start.imag for s in zig)
+        stroke = Line(complex(-1.0, lo + 0.4137), complex(n_comb + 1.0, lo + 0.4137 + 0.2))
+        others = LP.zigzag(max(n_rungs - 1, 0), 'L', amp=0.5, step=1.0, start=complex(n_comb / 3.0, lo + 8.0))
+        k = len(others) // 2
+        return Path(*zig), Path(*(others[:k] + [stroke] + others[k:]))
+    comb = LP.comb(n_comb, kinds=kinds, with_long=(n_comb // 2) if long_stroke and n_comb > 2 else None)
+    x_hi = max(max(s.start.real, s.end.real) for s in comb) + 0.537
+    rungs = LP.rungs(n_rungs, x1=x_hi, kinds=kinds)
+    return Path(*comb), Path(*rungs)
+
+
+def check_grid(n_comb, n_rungs, kinds, long_stroke, acc, clauses, prop):
+    """Path.intersect on the two grid paths, both orders, against the reduction over all segment pairs
+    (the segment-level solvers are decided elsewhere).  clauses: 'count' (C12: nothing missed, nothing
+    twice), 'coherent' (C11: every reported T belongs to the reported (segment, t) and the points agree)."""
+    from mc.enc import outcome
+    comb, rungs = grid_paths(n_comb, n_rungs, kinds, long_stroke)
+    case = {'what': 'grid', 'n_comb': n_comb, 'n_rungs': n_rungs, 'kinds': kinds, 'long_stroke': long_stroke}
+    pairs = n_comb * n_rungs
+    cls = 'grid/%s' % ('ge4096' if pairs >= 4096 else 'ge256' if pairs >= 256 else 'lt256')
+    acc.case(case, cls=cls, nontrivial=pairs > 1)
+    for order, a, b in (('comb_rungs', comb, rungs), ('rungs_comb', rungs, comb)):
+        sig = {'pair': 'paths', 'grid': cls.split('/')[1], 'order': order, 'long_stroke': long_stroke if isinstance(long_stroke, str) else bool(long_stroke)}
+        c = dict(case, order=order)
+        sa, sb = list(a), list(b)
+        want = {}
+        for i, s1 in enumerate(sa):
+            for j, s2 in enumerate(sb):
+                for t1, t2 in s1.intersect(s2):
+                    want.setdefault((i, j), []).append((float(t1), float(t2)))
+        r = outcome(lambda: a.intersect(b))
+        if r[0] != 'ok':
+            acc.violation('intersect_raises', dict(sig, exc=r[1]), c, observed=r)
+            continue
+        got = {}
+        bad = None
+        for (T1, seg1, t1), (T2, seg2, t2) in r[1]:
+            i = next((k for k, s in enumerate(sa) if s is seg1), None)
+            j = next((k for k, s in enumerate(sb) if s is seg2), None)
+            if i is None or j is None:
+                bad = bad or ('segment_not_in_path', [repr(seg1), repr(seg2)], None)
+                continue
+            got.setdefault((i, j), []).append((float(t1), float(t2)))
+            if 'coherent' in clauses and bad is None:
+                size = 1.0 + abs(a.point(0.0)) + abs(a.point(1.0))
+                if not (abs(a.point(T1) - seg1.point(t1)) <= 1e-6 * size and abs(b.point(T2) - seg2.point(t2)) <= 1e-6 * size):
+                    bad = ('T_not_coherent_with_segment_and_t', [T1, i, t1, T2, j, t2],
+                           [a.point(T1), seg1.point(t1), b.point(T2), seg2.point(t2)])
+                elif not abs(a.point(T1) - b.point(T2)) <= 1e-5 * size:
+                    bad = ('reported_points_differ', [T1, T2], [a.point(T1), b.point(T2)])
+        if bad and 'coherent' in clauses:
+            acc.violation(bad[0], sig, c, observed=bad[1], expected=bad[2])
+        if 'count' in clauses:
+            missing = [k for k in want if len(got.get(k, [])) < len(want[k])]
+            extra = [k for k in got if len(got[k]) > len(want.get(k, []))]
+            if missing:
+                acc.violation('crossing_missed', sig, c, observed='%d segment pairs with fewer reports than their own intersect()' % len(missing),
+                              expected='e.g. pair %r: %r' % (missing[0], want[missing[0]]),
+                              detail='%d crossings expected, %d reported' % (sum(map(len, want.values())), len(r[1])))
+            elif extra:
+                acc.violation('crossing_reported_more_than_once', sig, c, observed='pair %r: %r' % (extra[0], got[extra[0]]),
+                              expected=want.get(extra[0], []))
